@@ -11,6 +11,9 @@ check at exit 0.  They stand for the maintenance edits a rule must not depend on
   flipcmp     a == b -> b == a, a < b -> b > a, ... for single comparisons of side-effect free operands
   ifswap      if c: A else: B  ->  if not c: B else: A   (plain two-branch ifs, no elif)
   privnames   every private module-level function / class `_name` is renamed `_name_h` throughout the package
+  modern      newer surface syntax wherever it says the same: [a] + X + [b] with list operands -> [a, *X, b]; `a <= k and k < d` (same plain
+              middle operand) -> a <= k < d; isinstance(x, (A, B)) -> isinstance(x, A | B); `x = E` directly followed by `if <test reading
+              x first>` -> `if (x := E) ...`; an if / elif chain comparing one plain name with string / int literals -> match / case
 """
 from __future__ import annotations
 
@@ -140,7 +143,112 @@ def _private_defs(pkgdir):
     return out
 
 
-REWRITES = {"privnames": PrivNames, "methods": Methods, "transpose": Transpose, "isinstance": IsInstance, "catnames": CatNames, "flipcmp": FlipCmp, "ifswap": IfSwap}
+def _is_list_display(e):
+    return isinstance(e, ast.List) or (isinstance(e, ast.BinOp) and isinstance(e.op, ast.Mult) and (isinstance(e.left, ast.List) or isinstance(e.right, ast.List)))
+
+
+class Modern(ast.NodeTransformer):
+    def visit_BinOp(self, n):
+        self.generic_visit(n)
+        if isinstance(n.op, ast.Add):
+            parts = []
+
+            def flat(e):
+                if isinstance(e, ast.BinOp) and isinstance(e.op, ast.Add):
+                    flat(e.left)
+                    flat(e.right)
+                else:
+                    parts.append(e)
+            flat(n)
+            if len(parts) >= 2 and all(_is_list_display(x) for x in parts) and any(isinstance(x, ast.List) for x in parts):
+                elts = []
+                for x in parts:
+                    if isinstance(x, ast.List):
+                        elts += x.elts
+                    else:
+                        elts.append(ast.Starred(value=x, ctx=ast.Load()))
+                return ast.copy_location(ast.List(elts=elts, ctx=ast.Load()), n)
+        return n
+
+    def visit_BoolOp(self, n):
+        self.generic_visit(n)
+        if isinstance(n.op, ast.And) and len(n.values) == 2 and all(isinstance(v, ast.Compare) and len(v.ops) == 1 for v in n.values):
+            a, b = n.values
+            order = (ast.Lt, ast.LtE)
+            if isinstance(a.ops[0], order) and isinstance(b.ops[0], order) and isinstance(a.comparators[0], ast.Name) and isinstance(b.left, ast.Name) \
+                    and a.comparators[0].id == b.left.id:
+                return ast.copy_location(ast.Compare(left=a.left, ops=[a.ops[0], b.ops[0]], comparators=[a.comparators[0], b.comparators[0]]), n)
+        return n
+
+    def visit_Call(self, n):
+        self.generic_visit(n)
+        if isinstance(n.func, ast.Name) and n.func.id == "isinstance" and len(n.args) == 2 and isinstance(n.args[1], ast.Tuple) and len(n.args[1].elts) >= 2 \
+                and all(isinstance(t, (ast.Name, ast.Attribute)) for t in n.args[1].elts):
+            u = n.args[1].elts[0]
+            for t in n.args[1].elts[1:]:
+                u = ast.BinOp(left=u, op=ast.BitOr(), right=t)
+            n.args[1] = u
+        return n
+
+    def _blocks(self, node):
+        for f in ("body", "orelse", "finalbody"):
+            v = getattr(node, f, None)
+            if isinstance(v, list) and v and isinstance(v[0], ast.stmt):
+                setattr(node, f, self._walrus(self._match(v)))
+
+    def generic_visit(self, node):
+        super().generic_visit(node)
+        self._blocks(node)
+        for h in getattr(node, "handlers", []) or []:
+            self._blocks(h)
+        return node
+
+    @staticmethod
+    def _walrus(stmts):
+        out = []
+        i = 0
+        while i < len(stmts):
+            s = stmts[i]
+            nxt = stmts[i + 1] if i + 1 < len(stmts) else None
+            if isinstance(s, ast.Assign) and len(s.targets) == 1 and isinstance(s.targets[0], ast.Name) and isinstance(nxt, ast.If) \
+                    and isinstance(nxt.test, ast.Compare) and isinstance(nxt.test.left, ast.Name) and nxt.test.left.id == s.targets[0].id \
+                    and not any(isinstance(x, (ast.NamedExpr, ast.Lambda, ast.ListComp, ast.GeneratorExp)) for x in ast.walk(s.value)):
+                nxt.test.left = ast.NamedExpr(target=ast.Name(id=s.targets[0].id, ctx=ast.Store()), value=s.value)
+                out.append(nxt)
+                i += 2
+                continue
+            out.append(s)
+            i += 1
+        return out
+
+    @staticmethod
+    def _match(stmts):
+        out = []
+        for s in stmts:
+            arms, cur, subj = [], s, None
+            while isinstance(cur, ast.If) and isinstance(cur.test, ast.Compare) and len(cur.test.ops) == 1 and isinstance(cur.test.ops[0], ast.Eq) \
+                    and isinstance(cur.test.left, ast.Name) and isinstance(cur.test.comparators[0], ast.Constant) \
+                    and isinstance(cur.test.comparators[0].value, (str, int)) and not isinstance(cur.test.comparators[0].value, bool) \
+                    and (subj is None or subj == cur.test.left.id):
+                subj = cur.test.left.id
+                arms.append((cur.test.comparators[0], cur.body))
+                if len(cur.orelse) == 1 and isinstance(cur.orelse[0], ast.If):
+                    cur = cur.orelse[0]
+                else:
+                    rest = cur.orelse
+                    cur = None
+                    break
+            if cur is None and len(arms) >= 2 and not any(isinstance(x, ast.Name) and isinstance(x.ctx, ast.Store) and x.id == subj for a in arms for st in a[1] for x in ast.walk(st)):
+                cases = [ast.match_case(pattern=ast.MatchValue(value=c), guard=None, body=b) for c, b in arms]
+                if rest:
+                    cases.append(ast.match_case(pattern=ast.MatchAs(pattern=None, name=None), guard=None, body=rest))
+                out.append(ast.copy_location(ast.Match(subject=ast.Name(id=subj, ctx=ast.Load()), cases=cases), s))
+            else:
+                out.append(s)
+        return out
+
+
+REWRITES = {"privnames": PrivNames, "modern": Modern, "methods": Methods, "transpose": Transpose, "isinstance": IsInstance, "catnames": CatNames, "flipcmp": FlipCmp, "ifswap": IfSwap}
 
 
 def rewrite_tree(pkgdir: str, which: str) -> int:
